@@ -186,6 +186,10 @@ func runC14(c *Ctx) {
 		}
 		mem.Place(s.PC, prog...)
 		cpu := z80.CPU{States: s, Memory: mem, IO: io}
+		noDevice := (kind == 3 || kind == 4) && pi%2 == 1
+		if noDevice {
+			cpu.IO = nil // no device attached: the repetitions (and their fetches) are the same
+		}
 		r0 := s.IR.Lo
 		var steps int64
 		for i := 0; i < n; i++ {
@@ -194,12 +198,24 @@ func runC14(c *Ctx) {
 			want := r0&0x80 | (r0+uint8(i+1)*expPer)&0x7f
 			if cpu.IR.Lo != want || cpu.IR.Hi != s.IR.Hi {
 				c.R.Violation(fmt.Sprintf("C14/multi/kind%d", kind), map[string]interface{}{
-					"program": HexBytes(prog), "pre": DumpState(&s, false), "step": i + 1,
+					"program": HexBytes(prog), "pre": DumpState(&s, false), "step": i + 1, "no_io_device": noDevice,
 					"R": h8(cpu.IR.Lo), "want_R": h8(want), "I": h8(cpu.IR.Hi)})
 				break
 			}
 			if kind != 5 && i < n-1 && cpu.PC != s.PC {
-				// repeat ended early: not this property's business (C09), stop counting
+				// The repeat ended early.  Whether it may is C09's business - unless the whole
+				// operation was performed (counter run down to zero): then all its
+				// repetitions happened and each of them counts as an opcode fetch.
+				done := cpu.BC.U16() == 0
+				if kind >= 3 {
+					done = cpu.BC.Hi == 0
+				}
+				wantAll := r0&0x80 | (r0+uint8(n)*expPer)&0x7f
+				if done && cpu.IR.Lo != wantAll {
+					c.R.Violation(fmt.Sprintf("C14/multi/kind%d/all repetitions done, R counted fewer", kind), map[string]interface{}{
+						"program": HexBytes(prog), "pre": DumpState(&s, false), "post": DumpState(&cpu.States, cpu.HALT), "steps_taken": i + 1, "repetitions": n,
+						"no_io_device": noDevice, "R": h8(cpu.IR.Lo), "want_R": h8(wantAll)})
+				}
 				break
 			}
 		}
@@ -212,6 +228,50 @@ func runC14(c *Ctx) {
 			c.R.Sample(map[string]interface{}{"program": HexBytes(prog), "steps": n, "R_start": h8(r0), "R_end": h8(cpu.IR.Lo)})
 		}
 	})
+
+	// fetches from the unpopulated part of a short z80.DumbMemory (reads 0 = NOP)
+	// handed to the CPU directly count like any other opcode fetch
+	var shortN int64
+	{
+		r := mon.NewRng(uint64(c.Seed) ^ 0xC14E)
+		for _, L := range []int{0, 1, 2, 0x20, 0x4000, 0x8000, 0xffff} {
+			dm := make(z80.DumbMemory, L)
+			for i := range dm {
+				dm[i] = 0 // NOPs below the border as well: only fetch counting is looked at
+			}
+			for r0 := 0; r0 < 256; r0++ {
+				pre := RandStates(r)
+				pre.IR.Lo = uint8(r0)
+				switch r0 % 4 {
+				case 0:
+					pre.PC = uint16(L) + uint16(r.Intn(5)) - 2
+				case 1:
+					pre.PC = uint16(L)
+				case 2:
+					pre.PC = 0xffff - uint16(r.Intn(3))
+				default:
+					if L < 65535 {
+						pre.PC = uint16(L + r.Intn(65536-L))
+					}
+				}
+				cpu := z80.CPU{States: pre, Memory: dm}
+				nst := 1 + r0%5
+				for i := 0; i < nst; i++ {
+					cpu.Step()
+				}
+				shortN++
+				want := pre.IR.Lo&0x80 | (pre.IR.Lo+uint8(nst))&0x7f
+				if cpu.IR.Lo != want || cpu.IR.Hi != pre.IR.Hi || cpu.PC != pre.PC+uint16(nst) {
+					c.R.Violation("C14/short-DumbMemory/NOP fetches not counted", map[string]interface{}{
+						"what":   "Steps over the zero bytes of a z80.DumbMemory (incl. the part behind its end) must count one fetch each",
+						"length": L, "steps": nst, "pre": DumpState(&pre, false), "post": DumpState(&cpu.States, cpu.HALT), "want_R": h8(want)})
+				}
+				distinct.Add(mon.Hash(0x5407, uint64(L), uint64(r0)))
+			}
+		}
+	}
+	c.R.Set("steps_on_short_dumbmemory", shortN)
+	evals += shortN
 
 	// every opening of every table, implemented or not (an unimplemented one is consumed):
 	// I and bit 7 of R may change only through ED 47 / ED 4F
@@ -315,6 +375,6 @@ func runC14(c *Ctx) {
 	c.R.Set("encodings_covered", int64(len(encs)))
 	c.R.Set("exhaustive", false)
 	c.R.Set("exhaustive_over", "(encoding, starting R) pairs: 930 x 256, each with 5 I values x 2 IFF2 values; other registers sampled")
-	c.R.Set("rule", "all 930 implemented encodings x all 256 starting R x I in {00,7F,80,FF,random} x IFF2 in {0,1}: delta of R's low 7 bits = opcode fetches of the decode table (1 unprefixed, 2 prefixed, 2 or 3 DDCB/FDCB), bit 7 and I unchanged except by LD R,A / LD I,A, LD A,R / LD A,I value and flags by direct formula, plus equality with the reference model's R; then all 856 openings outside the implemented set x 86 starting R (I and bit 7 of R unchanged, counter moved by 1..4); then interrupt acceptance (NMI, mode 0 RST/CALL, mode 1, mode 2; all 256 starting R x 8 states each): bit 7 of R and I unchanged, counter moved by 0..2; then multi-Step programs (LDIR/LDDR/CPIR/OTIR/INIR with 1..300 repetitions, 1..300 Steps on HALT) from random R. Every case changes R, so every case is non-trivial; distinct = distinct (encoding, R, I, IFF2) tuples + distinct (kind, length, R) programs")
+	c.R.Set("rule", "all 930 implemented encodings x all 256 starting R x I in {00,7F,80,FF,random} x IFF2 in {0,1}: delta of R's low 7 bits = opcode fetches of the decode table (1 unprefixed, 2 prefixed, 2 or 3 DDCB/FDCB), bit 7 and I unchanged except by LD R,A / LD I,A, LD A,R / LD A,I value and flags by direct formula, plus equality with the reference model's R; then all 856 openings outside the implemented set x 86 starting R (I and bit 7 of R unchanged, counter moved by 1..4); then interrupt acceptance (NMI, mode 0 RST/CALL, mode 1, mode 2; all 256 starting R x 8 states each): bit 7 of R and I unchanged, counter moved by 0..2; then NOP fetches on short z80.DumbMemory slices (length 0..FFFFh) handed over directly, PC at/behind the end; then multi-Step programs (LDIR/LDDR/CPIR/OTIR/INIR with 1..300 repetitions - half of the I/O ones with no device attached -, 1..300 Steps on HALT) from random R. Every case changes R, so every case is non-trivial; distinct = distinct (encoding, R, I, IFF2) tuples + distinct (kind, length, R) programs")
 	c.R.Assume("across interrupt acceptance only bit 7 of R, I and a bound of 0..2 fetches are checked (chips and emulators differ on the exact count)")
 }
